@@ -261,7 +261,7 @@ class ModulePrinter(ExpressionPrinter):
         for n in node.names:
             delimiter.new_item()
 
-            if node.module == '__future__' and n.name == 'unicode_literals':
+            if node.module == '__future__' and not node.level and n.name == 'unicode_literals':
                 self.printer.unicode_literals = True
 
             if n.name == '*':
@@ -798,7 +798,7 @@ class ModulePrinter(ExpressionPrinter):
     def visit_Module(self, node):
         for statement in node.body:
             # The unicode_literals future import applies to the whole module, including a docstring that comes before it
-            if isinstance(statement, ast.ImportFrom) and statement.module == '__future__':
+            if isinstance(statement, ast.ImportFrom) and statement.module == '__future__' and not statement.level:
                 if 'unicode_literals' in [alias.name for alias in statement.names]:
                     self.printer.unicode_literals = True
 
